@@ -394,7 +394,8 @@ fn sql_table(ctx: &Ctx, db: &TestDb, tname: &str, c: &SqlCase, only: Option<(&st
                 let res = vcore::catch(|| db.db().query(&sql).map_err(|e| format!("{e:#}")));
                 let rows = match res {
                     Err(p) => {
-                        rep.violation("C24", "sql", &format!("C24/{}/{}/q={}:{}/panic", opname(op), dim_class(c.dim), dom[q].0, kcls), || case(op, q), "rows", &format!("{sql} => PANIC {p}"));
+                        let what = if k == Some(0) { "limit0".to_string() } else { format!("q={}:{}", dom[q].0, kcls) };
+                        rep.violation("C24", "sql", &format!("C24/{}/{}/{}/panic", opname(op), dim_class(c.dim), what), || case(op, q), if k == Some(0) { "0 rows" } else { "rows" }, &format!("{sql} => PANIC {p}"));
                         continue;
                     }
                     Ok(Err(e)) => {
@@ -514,6 +515,8 @@ fn sql_table(ctx: &Ctx, db: &TestDb, tname: &str, c: &SqlCase, only: Option<(&st
                     }
                 }
                 if let Some((pair, want)) = bad {
+                    // blame: tables holding a row with an undefined distance are a class of their own
+                    let pair = if undefined_total > 0 && !pair.starts_with("zero-undefined") { format!("undef+{pair}") } else { pair };
                     rep.violation("C24", "sql", &format!("C24/{}/{}/{}/wrong-topk", opname(op), dim_class(c.dim), pair), || case(op, q), &want, &shown());
                     continue;
                 }
@@ -559,7 +562,7 @@ impl Check for C24 {
         let mut s = Spec::new(
             "C24",
             "exploration",
-            "(a) kernel case = (dimension d, ordered pair (a,b) of the per-dimension vector set {zero, unit axis first/last/middle, all-equal 0.75, alternating +-1, all 1e18, one 1e18 among ones, all 1e-18, repeating (1e18,1e-18,1), ramp, reversed ramp, negative half ramp, (3,..,4), (4,..,3)}); d = 1..=70 (thorough adds 127,128,129,1536); every case calls all 17 kernels of src/hnsw/distance.rs (5 dispatching entry points via select_distance_fn / select_squared_distance_fn / euclidean_squared, 5 scalar bodies, 5 AVX2+FMA bodies) and compares with an f64 evaluation of the definition; plus NaN/inf/f32::MAX inputs (no panic). Non-trivial = not (zero,zero). (b) SQL case = (dimension in {1,3,8,9,70}, multiset of n<=5 (quick) / n<=6 (thorough) vectors of the 5-vector domain {zero, e0, -e0, (1e18,0..,1e-18), dense +-0.5} inserted in canonical order (thorough: also reversed order and with an HNSW index for n<=4), operator <-> or <=>, query vector of the domain, LIMIT none / 0 / 1..n / n+1); distances are recomputed in f64 from the returned vectors. Non-trivial = table has >= 2 rows.",
+            "(a) kernel case = (dimension d, ordered pair (a,b) of the per-dimension vector set {zero, unit axis first/last/middle, all-equal 0.75, alternating +-1, all 1e18, one 1e18 among ones, all 1e-18, repeating (1e18,1e-18,1), ramp, reversed ramp, negative half ramp, (3,..,4), (4,..,3)}); d = 1..=70 (thorough adds 127,128,129,1536); every case calls all 17 kernels of src/hnsw/distance.rs (5 dispatching entry points via select_distance_fn / select_squared_distance_fn / euclidean_squared, 5 scalar bodies, 5 AVX2+FMA bodies) and compares with an f64 evaluation of the definition; plus NaN/inf/f32::MAX inputs (no panic). Non-trivial = not (zero,zero). (b) SQL case = (dimension in {1,3,8,9,70}, multiset of n<=5 (quick) / n<=6 (thorough) vectors of the 5-vector domain {zero, e0, -e0, (1e18,0..,1e-18), dense +-0.5} inserted in canonical and in reversed order (thorough: also rotated by one, and with an HNSW index for n<=4), operator <-> or <=>, query vector of the domain, LIMIT none / 0 / 1..n / n+1); distances are recomputed in f64 from the returned vectors. Non-trivial = table has >= 2 rows.",
         );
         s.assumptions = &[
             "kernel oracle: f64 evaluation of sum (a_i-b_i)^2, its sqrt, sum a_i*b_i, 1 - dot/(|a||b|); accepted error 4*dim*eps_f32 relative to the sum of absolute terms (cosine: 4*(dim+2)*eps_f32 absolute) plus dim * smallest subnormal; nothing is demanded when the exact sum of squares / products / a squared norm exceeds the f32 range, nor for cosine with a zero vector (only: no panic)",
@@ -604,16 +607,19 @@ impl Check for C24 {
         let mut db: Option<TestDb> = None;
         let mut used = 0usize;
         let mut tno = 0usize;
-        let mut variants: Vec<(usize, bool, bool)> = Vec::new(); // (n, reversed, hnsw)
+        let mut variants: Vec<(usize, u8, bool)> = Vec::new(); // (n, insertion order: 0 canonical / 1 reversed / 2 rotated by one, hnsw)
         for n in 1..=nmax {
-            variants.push((n, false, false));
+            variants.push((n, 0, false));
+        }
+        for n in 2..=nmax {
+            variants.push((n, 1, false));
         }
         if !ctx.quick() {
-            for n in 2..=nmax {
-                variants.push((n, true, false));
+            for n in 3..=nmax {
+                variants.push((n, 2, false));
             }
             for n in 1..=4 {
-                variants.push((n, false, true));
+                variants.push((n, 0, true));
             }
         }
         'outer: for &d in &SQL_DIMS {
@@ -628,11 +634,16 @@ impl Check for C24 {
                         break 'outer;
                     }
                     let mut rows = ms.clone();
-                    if rev {
-                        rows.reverse();
-                        if rows == ms {
-                            continue; // same insertion order as the canonical pass
-                        }
+                    match rev {
+                        1 => rows.reverse(),
+                        2 => rows.rotate_left(1),
+                        _ => {}
+                    }
+                    if rev != 0 && rows == ms {
+                        continue; // same insertion order as the canonical pass
+                    }
+                    if rev == 2 && rows.iter().rev().eq(ms.iter()) {
+                        continue; // same as the reversed pass
                     }
                     if db.is_none() || used >= 40 {
                         db = None;
